@@ -276,6 +276,8 @@ func main() {
 		}
 	}
 
+	// how many generated pairs lie in the domains the theorems quantify over
+	premises := map[string]int{}
 	var all []*obs
 	var jsIn bytes.Buffer
 	var jsIdx []int
@@ -334,6 +336,19 @@ func main() {
 			run.Hist("leaves:" + k)
 		}
 		ob.nullKey = kinds["null-key"]
+		premises["pairs"]++
+		switch {
+		case !keysComparable(old) || !keysComparable(nw):
+			premises["outside (a key that is a list or an object)"]++
+		case kinds["bytes-key"] && kinds["null-key"]:
+			premises["vwf with fix-4 and fix-5 (nil keys and []byte keys)"]++
+		case kinds["bytes-key"]:
+			premises["vwf_strict with fix-5 ([]byte keys)"]++
+		case kinds["null-key"]:
+			premises["vwf, not vwf_strict (explicit nil key): round trip only with fix-4"]++
+		default:
+			premises["vwf_strict (all theorems apply)"]++
+		}
 		if ob.nullKey {
 			ob.oldModel = false // outside the domain of DiffMerge/Model.v
 		}
@@ -488,7 +503,15 @@ func main() {
 			s := src[cr.Intn(len(src))]
 			prev, delta := deepCopy(s.stripOld), deepCopy(s.delta)
 			var edits []string
-			for k := 1 + cr.Intn(2); k > 0; k-- {
+			if dm, isObj := delta.(map[string]interface{}); isObj && cr.Chance(50) {
+				// only rewritings that keep the delta well-formed
+				for k := 1 + cr.Intn(3); k > 0; k-- {
+					if name, ok := validEdit(cr, prev, dm); ok {
+						edits = append(edits, name)
+					}
+				}
+			}
+			for k := 1 + cr.Intn(2); k > 0 && len(edits) == 0; k-- {
 				var e string
 				prev, delta, e = fuzzEdit(cr, prev, delta)
 				edits = append(edits, e)
@@ -545,6 +568,19 @@ func main() {
 		}
 	}
 
+	for k, v := range premises {
+		run.Extra["premise: "+k] = v
+	}
+	nwf, nfz := 0, 0
+	for _, ob := range all {
+		if ob.fuzz {
+			nfz++
+			if ob.wellFormed {
+				nwf++
+			}
+		}
+	}
+	run.Extra["premise: edited deltas that are well-formed (clients_agree applies)"] = fmt.Sprintf("%d of %d", nwf, nfz)
 	if searching {
 		run.Finish()
 		return
